@@ -141,6 +141,9 @@ def run(ctx, tier: str, seed: int) -> None:
     entry_pool = G.POOL_ENTRY_THOROUGH if thorough else G.POOL_ENTRY
     size = 4 if thorough else 3
     G.warm_cache(entry_pool + SEGMENT_EXPRESSIONS, cers)
+    ctx.assume("C17 does not judge the REQUIRED/OPTIONAL prefix of a value-pool status (the statement fixes only: "
+               "offered list, accepted iff offered, unexpected => flagged + empty + reset, nothing offered / forbidden "
+               "segment => forbidden); an offered-but-empty or accepted value must not be reported forbidden")
     ctx.trust("A-EVAL 'the entry's own expression is fulfilled' is decided by the real expression evaluation "
               "(subject of C03-C10)")
     G.run_cases(ctx, "valuepool-direct", direct_cases(entry_pool, size, cers), check_case, MODULE, RULE_D,
